@@ -167,8 +167,8 @@ def fill(add):
     add(
         "C16",
         "exploration",
-        "property-based testing over call sequences plus systematic schedule enumeration (harness-owned sys.settrace scheduler, all 1-preemption schedules; <=2 in thorough)",
+        "property-based testing over call sequences plus systematic schedule enumeration (harness-owned sys.settrace scheduler, all 1-preemption schedules; <=2 in thorough), plus a real-thread stress mode for optimizers with an internal pool",
         "Generated query sequences through every reusable optimizer kind, and real threads sharing one optimizer under a harness-owned scheduler that serialises them at line granularity in reusable.py/presets.py/hyper.py; every returned tree/path must belong to its own query.",
-        "Preemption bound 2; yield points = Python lines of the named files; max_time=None so schedules do not depend on the clock.",
+        "Preemption bound 2; yield points = Python lines of the named files; max_time=None so schedules do not depend on the clock. The pooled stress mode (one case in sixteen) runs under the operating system's schedule: it can miss, it cannot raise a false alarm.",
         "DESIGN.md 1/C16",
     )
